@@ -106,6 +106,13 @@ def main(tier, seed):
             twins_ += [(fq(c, a_), fq(c, b_)), (("not", fq(c, a_)), ("not", fq(c, b_))), (fq(c, a_), ("not", fq(c, b_)))]
     twins_ += [(("S", "tags", [("k", "a")], ("cmp", "==", ("s", "-1"))), ("S", "tags", [("k", "a")], ("cmp", "==", ("s", "-2")))),
                (("and", fq("==", -1), fq(">", 0)), ("and", fq("==", -2), fq(">", 0)))]
+    # ... and for a compound against one of its own operands (x = a & b: x & b and b & x, x | a and a | x), and against another compound sharing one
+    ta = [fq("==", 1), fq(">", 0), ("S", "tags", [("k", "a")], ("cmp", "==", ("s", "ab"))), ("S", "tags", [("k", "b")], ("exists",)), ("S", "meas", [], ("cmp", "==", ("s", "m1")))]
+    for i_, a_ in enumerate(ta):
+        for b_ in ta[i_ + 1:]:
+            for op_ in ("and", "or"):
+                x_ = (op_, a_, b_)
+                twins_ += [(x_, a_), (x_, b_), (x_, (op_, b_, a_)), (("not", x_), a_), (x_, ("not", b_))]
     for qa, qb in twins_:
         a, bq = M.real_query(tf, qa, shared_builders), M.real_query(tf, qb, shared_builders)
         comm_checked += 1
